@@ -78,7 +78,7 @@ var C02 = &sim.Scenario{
 	Components: components,
 	Runs: func(th bool) int {
 		if th {
-			return 1500000
+			return 5000000
 		}
 		return 40000
 	},
